@@ -66,6 +66,10 @@ pub fn prop_small(c: &SmallCase) -> CaseResult {
     Ok(o)
 }
 
+pub fn small_cases_pub(max_len: usize) -> Vec<SmallCase> {
+    small_cases(max_len)
+}
+
 fn small_cases(max_len: usize) -> Vec<SmallCase> {
     let mut v = Vec::new();
     let mut seq: Vec<u8> = Vec::new();
